@@ -355,4 +355,315 @@ theorem other_keeps_thread {c : CCfg2} {s s' : St} (i : Nat) (a : Action) (hs : 
         | ret g cs e how => simp only [cstep, Option.some.injEq] at h1; subst h1; exact frame s _ rfl
         | retErr g cs => simp only [cstep, Option.some.injEq] at h1; subst h1; exact frame s _ rfl
 
+/- ------------------------------------------------------------------ nested levels are no-ops -/
+
+/-- only the outermost level of a thread's stack is an activating one -/
+def shapeOK : List Bool → Prop
+  | [] => True
+  | [b] => b = true
+  | false :: (b :: r) => shapeOK (b :: r)
+  | true :: _ :: _ => False
+
+theorem shapeOK_true {rest : List Bool} (h : shapeOK (true :: rest)) : rest = [] := by
+  cases rest with
+  | nil => rfl
+  | cons b r => cases h
+
+theorem shapeOK_false {rest : List Bool} (h : shapeOK (false :: rest)) : rest ≠ [] ∧ shapeOK rest := by
+  cases rest with
+  | nil => cases h
+  | cons b r => exact ⟨by simp, h⟩
+
+def NOK (aF : Option Nat) (stack : List Bool) : Phase → Prop
+  | .out => stack = []
+  | .test => stack ≠ [] → aF ≠ none
+  | .act rest => stack = [] ∧ (Lvl.front ∉ rest → aF ≠ none)
+  | .inBlock => stack = [] ∧ aF ≠ none
+  | .inNoop => aF ≠ none
+  | .deact _ => stack = []
+  | .release => stack ≠ [] → aF ≠ none
+  | .oerr => stack = []
+
+structure NInv (s : St) : Prop where
+  ok : ∀ i, NOK s.attrF (s.thr i).stack (s.thr i).ph
+  shape : ∀ i, shapeOK (s.thr i).stack
+
+theorem cstep_attrF {c : CCfg2} {s s1 : St} (tid : Nat) (pc : PC) (h : cstep c s tid pc = some s1) : s1.attrF = s.attrF := by
+  have hA : ∀ (s0 : St) (g cs : Nat) (fd : Option (Nat × Nat × Nat)) (e : Entry) (how : How),
+      (afterProc s0 tid g cs fd e how).attrF = s0.attrF := by
+    intro s0 g cs fd e how; unfold afterProc; split <;> rfl
+  have hS : ∀ (d : Nat) (k : Key) (e : Entry), (storeM c s d k e).attrF = s.attrF := by
+    intro d k e; unfold storeM; split <;> rfl
+  cases pc with
+  | idle => simp [cstep] at h
+  | f0 f g cs =>
+    simp only [cstep] at h
+    split at h
+    · split at h <;> (simp only [Option.some.injEq] at h; subst h; rfl)
+    · simp only [Option.some.injEq] at h; subst h; rfl
+  | f1 f g cs d t0 =>
+    simp only [cstep] at h
+    split at h <;> (simp only [Option.some.injEq] at h; subst h; rfl)
+  | p0 g cs fd =>
+    simp only [cstep] at h
+    split at h
+    · split at h
+      · split at h <;> (simp only [Option.some.injEq] at h; subst h; rfl)
+      · simp only [Option.some.injEq] at h; subst h; rfl
+    · simp only [Option.some.injEq] at h; subst h; rfl
+  | p1 g cs fd pd t0 =>
+    simp only [cstep] at h
+    split at h
+    · simp only [Option.some.injEq] at h; subst h; exact hA _ _ _ _ _ _
+    · simp only [Option.some.injEq] at h; subst h; rfl
+  | p2 g cs fd od =>
+    simp only [cstep] at h
+    split at h
+    · simp only [Option.some.injEq] at h; subst h; rfl
+    · split at h
+      · simp only [Option.some.injEq] at h; subst h; rfl
+      · simp only [Option.some.injEq] at h; subst h; exact hA _ _ _ _ _ _
+  | p4 g cs fd pd e =>
+    simp only [cstep, Option.some.injEq] at h; subst h
+    rw [hA]; exact hS _ _ _
+  | f4 f g cs d e how =>
+    simp only [cstep, Option.some.injEq] at h; subst h
+    exact hS _ _ _
+  | ret g cs e how => simp only [cstep, Option.some.injEq] at h; subst h; rfl
+  | retErr g cs => simp only [cstep, Option.some.injEq] at h; subst h; rfl
+
+/-- the moving thread's own part of NInv -/
+theorem tstep_nok {c : CCfg2} (hF : Lvl.front ∈ c.actSeq) {s s1 : St} (tid : Nat) (ch : Choice) (hL : LInv c s)
+    (hN : NOK s.attrF (s.thr tid).stack (s.thr tid).ph) (hS : shapeOK (s.thr tid).stack)
+    (h : tstep c s tid ch = some s1) :
+    NOK s1.attrF (s1.thr tid).stack (s1.thr tid).ph ∧ shapeOK (s1.thr tid).stack := by
+  cases ch with
+  | call ff g =>
+    simp only [tstep] at h
+    split at h
+    · split at h
+      · split at h
+        · simp only [Option.some.injEq] at h; subst h
+          rw [thr_setPc_self]; exact ⟨hN, hS⟩
+        · cases h
+      · simp only [Option.some.injEq] at h; subst h
+        rw [thr_setPc_self]; exact ⟨hN, hS⟩
+    · cases h
+  | acquire =>
+    simp only [tstep] at h
+    split at h
+    · rename_i hcnd
+      simp only [Option.some.injEq] at h; subst h
+      rw [thr_setPh_self]
+      rw [hcnd.2.1] at hN
+      exact ⟨fun hne => absurd hN hne, hS⟩
+    · split at h
+      · rename_i hcnd
+        simp only [Option.some.injEq] at h; subst h
+        rw [hcnd.2.2] at hN
+        have hthr : (pushTest s tid true).thr tid = { s.thr tid with ph := .test, stack := true :: (s.thr tid).stack } := by
+          simp [pushTest]
+        rw [hthr]
+        refine ⟨fun _ => hN.2, ?_⟩
+        show shapeOK (true :: (s.thr tid).stack)
+        rw [hN.1]; rfl
+      · split at h
+        · rename_i hcnd
+          simp only [Option.some.injEq] at h; subst h
+          rw [hcnd.2.2] at hN
+          have hne : (s.thr tid).stack ≠ [] := by
+            have := hL.owner tid hcnd.2.1
+            rw [hcnd.2.2] at this; exact this
+          have hthr : (pushTest s tid false).thr tid = { s.thr tid with ph := .test, stack := false :: (s.thr tid).stack } := by
+            simp [pushTest]
+          rw [hthr]
+          refine ⟨fun _ => hN, ?_⟩
+          show shapeOK (false :: (s.thr tid).stack)
+          cases hst : (s.thr tid).stack with
+          | nil => exact absurd hst hne
+          | cons b r => rw [hst] at hS; exact hS
+        · cases h
+  | beginExit =>
+    simp only [tstep] at h
+    split at h
+    · cases hph : (s.thr tid).ph with
+      | inBlock =>
+        rw [hph] at h hN
+        simp only [Option.some.injEq] at h; subst h
+        rw [thr_setPh_self]; exact ⟨hN.1, hS⟩
+      | inNoop =>
+        rw [hph] at h hN
+        simp only [Option.some.injEq] at h; subst h
+        rw [thr_setPh_self]; exact ⟨fun _ => hN, hS⟩
+      | out => rw [hph] at h; cases h
+      | test => rw [hph] at h; cases h
+      | act r => rw [hph] at h; cases h
+      | deact r => rw [hph] at h; cases h
+      | release => rw [hph] at h; cases h
+      | oerr => rw [hph] at h; cases h
+    · cases h
+  | step =>
+    simp only [tstep] at h
+    split at h
+    · cases hph : (s.thr tid).ph with
+      | out => rw [hph] at h; simp [ostep] at h
+      | inBlock => rw [hph] at h; simp [ostep] at h
+      | inNoop => rw [hph] at h; simp [ostep] at h
+      | oerr => rw [hph] at h; simp [ostep] at h
+      | test =>
+        rw [hph] at h hN
+        simp only [ostep] at h
+        split at h
+        · rename_i d hd
+          simp only [Option.some.injEq] at h; subst h
+          rw [thr_setPh_self]
+          refine ⟨?_, hS⟩
+          show s.attrF ≠ none
+          have hd' : s.attrF = some d := hd
+          rw [hd']; simp
+        · rename_i hnone
+          simp only [Option.some.injEq] at h; subst h
+          rw [thr_setPh_self]
+          refine ⟨⟨?_, fun hn => absurd hF hn⟩, hS⟩
+          show (s.thr tid).stack = []
+          cases hst : (s.thr tid).stack with
+          | nil => rfl
+          | cons b r =>
+            have := hN (by rw [hst]; simp)
+            have hnone' : s.attrF = none := hnone
+            exact absurd hnone' this
+      | act rest =>
+        rw [hph] at h hN
+        cases rest with
+        | nil =>
+          simp only [ostep, Option.some.injEq] at h; subst h
+          rw [thr_setPh_self]
+          exact ⟨⟨hN.1, hN.2 (by simp)⟩, hS⟩
+        | cons l rest =>
+          simp only [ostep, Option.some.injEq] at h; subst h
+          have hthr : (actSt s tid l).thr = s.thr := by cases l <;> rfl
+          rw [thr_setPh_self, hthr]
+          refine ⟨⟨hN.1, fun hn => ?_⟩, hS⟩
+          show (actSt s tid l).attrF ≠ none
+          cases l with
+          | front => simp [actSt]
+          | proc =>
+            have : (actSt s tid Lvl.proc).attrF = s.attrF := rfl
+            rw [this]
+            exact hN.2 (mem_of_not_mem_tail hn (by decide))
+      | deact rest =>
+        rw [hph] at h hN
+        cases rest with
+        | nil =>
+          simp only [ostep, Option.some.injEq] at h; subst h
+          rw [thr_setPh_self]
+          exact ⟨fun hne => absurd hN hne, hS⟩
+        | cons l rest =>
+          simp only [ostep] at h
+          split at h
+          · simp only [Option.some.injEq] at h; subst h
+            have hthr : (delAttr s l).thr = s.thr := by cases l <;> rfl
+            rw [thr_setPh_self, hthr]; exact ⟨hN, hS⟩
+          · simp only [Option.some.injEq] at h; subst h
+            rw [thr_setPh_self]
+            refine ⟨?_, hS⟩
+            cases c.delGuard
+            · exact hN
+            · exact hN
+      | release =>
+        rw [hph] at h hN
+        simp only [ostep] at h
+        split at h
+        · rename_i hs
+          simp only [Option.some.injEq] at h; subst h
+          rw [thr_setPh_self]; exact ⟨hs, hS⟩
+        · rename_i b rest hs
+          simp only [Option.some.injEq] at h; subst h
+          have hthr : (popTo s tid (if b = true then Phase.inBlock else Phase.inNoop) rest).thr tid =
+              { s.thr tid with ph := (if b = true then Phase.inBlock else Phase.inNoop), stack := rest } := by simp [popTo]
+          rw [hthr]
+          have haF : s.attrF ≠ none := hN (by rw [hs]; simp)
+          rw [hs] at hS
+          cases b with
+          | true =>
+            have hr := shapeOK_true hS
+            subst hr
+            exact ⟨⟨rfl, haF⟩, trivial⟩
+          | false =>
+            exact ⟨haF, (shapeOK_false hS).2⟩
+    · rename_i hpc
+      obtain ⟨s1', h1, _, h3, h4, _⟩ := cstep_prog c s tid (s.thr tid).pc hpc
+      rw [h1] at h
+      simp only [Option.some.injEq] at h; subst h
+      rw [h3, h4, cstep_attrF tid _ h1]; exact ⟨hN, hS⟩
+
+/-- a thread that is outside every block cannot change the front-end attribute -/
+theorem tstep_out_attrF {c : CCfg2} {s s1 : St} (tid : Nat) (ch : Choice) (hout : (s.thr tid).ph = .out)
+    (h : tstep c s tid ch = some s1) : s1.attrF = s.attrF := by
+  cases ch with
+  | call ff g =>
+    simp only [tstep] at h
+    split at h
+    · split at h
+      · split at h
+        · simp only [Option.some.injEq] at h; subst h; rfl
+        · cases h
+      · simp only [Option.some.injEq] at h; subst h; rfl
+    · cases h
+  | acquire =>
+    simp only [tstep] at h
+    split at h
+    · simp only [Option.some.injEq] at h; subst h; rfl
+    · split at h
+      · simp only [Option.some.injEq] at h; subst h; rfl
+      · split at h
+        · simp only [Option.some.injEq] at h; subst h; rfl
+        · cases h
+  | beginExit =>
+    simp only [tstep, hout] at h
+    split at h <;> cases h
+  | step =>
+    simp only [tstep] at h
+    split at h
+    · rw [hout] at h; simp [ostep] at h
+    · exact cstep_attrF tid _ h
+
+theorem ninv_init : NInv St.init := ⟨fun _ => rfl, fun _ => trivial⟩
+
+theorem step_ninv {c : CCfg2} (hF : Lvl.front ∈ c.actSeq) {s s' : St} (a : Action) (hL : LInv c s) (hN : NInv s)
+    (h : step c s a = some s') : NInv s' := by
+  cases a with
+  | setVer g v => simp only [step, Option.some.injEq] at h; subst h; exact ⟨hN.ok, hN.shape⟩
+  | setDenied g b => simp only [step, Option.some.injEq] at h; subst h; exact ⟨hN.ok, hN.shape⟩
+  | thr tid ch =>
+    have hother : ∀ i, i ≠ tid → s'.thr i = s.thr i := fun i hi =>
+      other_keeps_thread i _ h (fun ch' e => by injection e with e1 _; exact hi e1.symm)
+    simp only [step, Option.map_eq_some_iff] at h
+    obtain ⟨s1, h1, rfl⟩ := h
+    obtain ⟨hok, hsh⟩ := tstep_nok hF tid ch hL (hN.ok tid) (hN.shape tid) h1
+    refine ⟨fun i => ?_, fun i => ?_⟩
+    · by_cases hi : i = tid
+      · rw [hi]; exact hok
+      · rw [hother i hi]
+        show NOK s1.attrF (s.thr i).stack (s.thr i).ph
+        by_cases hout : (s.thr tid).ph = .out
+        · rw [tstep_out_attrF tid ch hout h1]; exact hN.ok i
+        · -- the mover holds the lock, so thread i is outside every block: NOK does not look at the attribute
+          have hl := hL.own tid hout
+          have hio : (s.thr i).ph = .out := Decidable.byContradiction (fun hne => by
+            have := hL.own i hne
+            rw [hl] at this
+            exact hi (Option.some.inj this).symm)
+          have := hN.ok i
+          rw [hio] at this ⊢
+          exact this
+    · by_cases hi : i = tid
+      · rw [hi]; exact hsh
+      · rw [hother i hi]; exact hN.shape i
+
+theorem reach_ninv {c : CCfg2} (hc : c.Covers) (hF : Lvl.front ∈ c.actSeq) {s : St} (h : Reach c s) : NInv s := by
+  induction h with
+  | init => exact ninv_init
+  | step a hr hs ih => exact step_ninv hF a (reach_inv hc hr).l ih hs
+
 end Psutil.C16.Conc2
